@@ -3,8 +3,10 @@
 //! virtual instant as a connect, before and after it in event order - compared with the stop-free
 //! run of the same scenario.
 
+use super::c15::{v1_header, v2_header};
 use super::common::*;
-use crate::client::ClientSpec;
+use crate::client::{ClientSpec, Cut};
+use crate::pipe::Gate;
 use crate::net::{NetCfg, NetClient, NetOutcome, NetScenario, run_net};
 use crate::rng::Rng;
 use crate::runner::{Check, RunReport, Tier};
@@ -24,6 +26,8 @@ fn generate(rng: &mut Rng) -> C17Sc {
     let timeout_s = *rng.pick(&[20u64, 60, 120]);
     let mut clients = vec![];
     let mut times = vec![];
+    // with PROXY protocol a connection can be "just accepted" for a long time: its header may still be on its way
+    let proxy = if rng.chance(1, 3) { Some((true, true)) } else { None };
     for i in 0..n {
         let t = ms(rng.range(0, 20) * 500);
         times.push(t);
@@ -37,6 +41,19 @@ fn generate(rng: &mut Rng) -> C17Sc {
         }
         spec.close_on_end_ns = Some(0);
         spec.coalesce = rng.chance(1, 2);
+        if proxy.is_some() {
+            let src: std::net::SocketAddr = format!("198.51.100.{}:{}", 1 + i % 200, 51_000 + i).parse().unwrap();
+            let dst: std::net::SocketAddr = "192.0.2.200:25565".parse().unwrap();
+            let h = if rng.chance(1, 2) { v1_header(&src, &dst) } else { v2_header(&src, &dst, false) };
+            let hl = h.len() as u64;
+            spec.preamble = Some(h);
+            // the header trickles in: complete only seconds later, or just inside the deadline
+            match rng.below(4) {
+                0 => spec.cuts.push(Cut { at: rng.range(1, hl - 1), gate: Gate::Delay { ns: secs(rng.range(1, 6)) }, spurious: 0 }),
+                1 => spec.cuts.push(Cut { at: rng.range(1, hl - 1), gate: Gate::Delay { ns: secs(timeout_s - 2) }, spurious: 0 }),
+                _ => {}
+            }
+        }
         clients.push(NetClient { connect_at_ns: t, peer: format!("10.1.{}.{}:{}", i / 100, 1 + i % 100, 41_000 + i), spec, wplan: vec![] });
     }
     clients.sort_by_key(|c| c.connect_at_ns);
@@ -54,13 +71,13 @@ fn generate(rng: &mut Rng) -> C17Sc {
     C17Sc {
         net: NetScenario {
             seed: rng.next_u64(),
-            cfg: NetCfg { secret: None, expiry: None, max_frame: None, timeout_ns: secs(timeout_s), proxy: None, limiter: None, use_start: false },
+            cfg: NetCfg { secret: None, expiry: None, max_frame: None, timeout_ns: secs(timeout_s), proxy, limiter: None, use_start: false },
             wall: Default::default(),
             services,
             clients,
             stop_at_ns: Some(stop_at),
             stop_before: rng.chance(1, 2),
-            cap_ns: secs(timeout_s) + secs(60),
+            cap_ns: 3 * secs(timeout_s) + secs(60),
         },
     }
 }
@@ -138,7 +155,9 @@ pub fn check(sc: &C17Sc, out: &NetOutcome, free: &NetOutcome, rep: &mut RunRepor
         rep.violate("listen_waits_for_in_flight", format!("listen() returned at {ret} ns, the last served connection ended at {last_end} ns"));
     }
     // and not needlessly late: bounded by the connection timeout after the stop
-    if ret > stop.max(last_end) + sc.net.cfg.timeout_ns {
+    // (with PROXY protocol the deadline applies to the header wait and then to the connection itself)
+    let per_conn = sc.net.cfg.timeout_ns * if sc.net.cfg.proxy.is_some() { 2 } else { 1 };
+    if ret > stop.max(last_end) + per_conn {
         rep.violate("drain_bounded_by_timeout", format!("stop at {stop} ns, last connection ended at {last_end} ns, listen() returned only at {ret} ns"));
     }
 }
@@ -182,10 +201,14 @@ impl Check for C17 {
         generate(rng)
     }
     fn execute(&self, sc: &C17Sc) -> RunReport {
-        if !net_domain_ok(&sc.net) || sc.net.cfg.use_start || sc.net.stop_at_ns.is_none() || sc.net.cfg.proxy.is_some() || sc.net.cap_ns < sc.net.cfg.timeout_ns + secs(30) {
+        if !net_domain_ok(&sc.net) || sc.net.cfg.use_start || sc.net.stop_at_ns.is_none() || sc.net.cap_ns < sc.net.cfg.timeout_ns * if sc.net.cfg.proxy.is_some() { 3 } else { 1 } + secs(30) {
             return RunReport::default();
         }
-        if sc.net.clients.iter().any(|c| c.spec.script.is_some() || !c.spec.mutations.is_empty() || c.spec.preamble.is_some() || !c.wplan.is_empty() || !matches!(c.spec.intent, 1..=3)) {
+        if sc.net.clients.iter().any(|c| c.spec.script.is_some() || !c.spec.mutations.is_empty() || c.spec.preamble.is_some() != sc.net.cfg.proxy.is_some() || !c.wplan.is_empty() || !matches!(c.spec.intent, 1..=3)) {
+            return RunReport::default();
+        }
+        // cuts only inside the PROXY header (a trickling header), nowhere else
+        if sc.net.clients.iter().any(|c| c.spec.cuts.iter().any(|k| c.spec.preamble.as_ref().is_none_or(|p| k.at == 0 || k.at >= p.len() as u64) || !matches!(k.gate, Gate::Delay { .. }))) {
             return RunReport::default();
         }
         let out = run_net(&sc.net);
@@ -201,6 +224,9 @@ impl Check for C17 {
         };
         rep.merge_counts(&out.faults, &out.probes);
         *rep.faults.entry("stop_signal".into()).or_insert(0) += 1;
+        if sc.net.clients.iter().any(|c| !c.spec.cuts.is_empty()) {
+            *rep.faults.entry("proxy_header_trickles_in".into()).or_insert(0) += 1;
+        }
         let stop = sc.net.stop_at_ns.unwrap();
         if sc.net.clients.iter().any(|c| c.connect_at_ns == stop) {
             *rep.probes.entry("stop_same_instant_as_connect".into()).or_insert(0) += 1;
